@@ -586,9 +586,9 @@ func initKeyObject(ex *absint.Exec, st *absint.State, prog *load.Program, pkg, n
 		if i < 0 {
 			return
 		}
-		sv := ex.BytesToSlice(st, absint.SymBytes(sym0, n, 0), field)
-		sv.Base.Obj.Origin = absint.Origin{Kind: "param", Root: "key." + field}
-		ex.StoreLeaf(st, ex.FieldPtr(obj, i), sv, 0)
+		if sv := storeBytesField(ex, st, obj, prog, tpkg, tname, i, absint.SymBytes(sym0, n, 0), field); sv != nil {
+			sv.Base.Obj.Origin = absint.Origin{Kind: "param", Root: "key." + field}
+		}
 	}
 	sub := func(obj *absint.Ptr, tpkg, tname, field string) *absint.Ptr {
 		i := FieldIndex(prog, tpkg, tname, field)
